@@ -249,6 +249,10 @@ class ndarray:
     def transpose(self, *axes):
         return transpose(self)
 
+    def tobytes(self, order="C"):
+        """A hashable surrogate of the raw bytes: equal contents <=> equal result (used by caches keyed on array contents)."""
+        return repr((self.shape, tuple(v.key() for v in self.values()))).encode()
+
     def fill(self, v):
         v = _scalar(v)
         for i in self._ix:
@@ -436,6 +440,28 @@ class ndarray:
     # ---- reductions
     def sum(self, axis=None):
         return sum_(self, axis)
+
+    def any(self, axis=None):
+        return any(self)
+
+    def all(self, axis=None):
+        return all(self)
+
+    def max(self, axis=None):
+        vals = self.values()
+        m = vals[0]
+        for v in vals[1:]:
+            if v > m:
+                m = v
+        return m
+
+    def min(self, axis=None):
+        vals = self.values()
+        m = vals[0]
+        for v in vals[1:]:
+            if v < m:
+                m = v
+        return m
 
     def dot(self, o):
         return dot(self, o)
